@@ -86,8 +86,12 @@ const sessionRounds = 4
 
 // waitSessionEnd waits for the hostile session's accept handler to return after the peer's EOF.
 func waitSessionEnd(s *inproc.Server, conn *memconn.Conn) (v *pbt.Violation, ended bool) {
-	for round := 0; round < sessionRounds; round++ {
-		if conn.WaitPeerDone(lalclient.DeliverTimeout) {
+	return waitSessionEndWithin(s, conn, lalclient.DeliverTimeout, sessionRounds, 2*time.Second)
+}
+
+func waitSessionEndWithin(s *inproc.Server, conn *memconn.Conn, round time.Duration, rounds int, gap time.Duration) (v *pbt.Violation, ended bool) {
+	for i := 0; i < rounds; i++ {
+		if conn.WaitPeerDone(round) {
 			return nil, true
 		}
 		if v := s.PanicViolation(); v != nil {
@@ -95,9 +99,9 @@ func waitSessionEnd(s *inproc.Server, conn *memconn.Conn) (v *pbt.Violation, end
 		}
 		// stuck (parked in the same place) or merely slow?  pbt.StuckGoroutine cannot tell the hostile session from
 		// the bystanders' idle ones (same marker), hence the variant above; without bystanders both agree.
-		if stuck, stack := stuckSession(2 * time.Second); stuck {
+		if stuck, stack := stuckSession(gap); stuck {
 			return pbt.V("session-never-returns", "the server-side session is still parked %v after the peer's EOF:\n%s",
-				time.Duration(round+1)*lalclient.DeliverTimeout, head(stack, 3000)), false
+				time.Duration(i+1)*round, head(stack, 3000)), false
 		}
 	}
 	// still running / moving after minutes: lal zeroes up to 16 MiB per lying chunk header, so a megabyte of
@@ -168,6 +172,18 @@ func subListed(s *inproc.Server, stream string, sub *lalclient.Consumer) (listed
 	}
 }
 
+// subscriberEnded judges a healthy subscriber whose reader has stopped.  lal closing the connection (EOF, also in the
+// middle of a chunk) is the violation "that session only" forbids.  A framing error found by the reference decoder in
+// what lal relayed from the hostile publisher is another matter (the chunk writer's validity is C08's subject): it is
+// counted, not reported, and the same-stream relay is not judged for this case.
+func subscriberEnded(sig, stream string, sub *lalclient.Consumer, when string) *pbt.Violation {
+	if err := sub.Err(); err != nil && !strings.Contains(err.Error(), "ended inside a chunk") {
+		pbt.Count("c04-bystander-decoder-error", 1)
+		return nil
+	}
+	return pbt.V(sig+"/subscriber-disconnected", "the healthy subscriber of stream %q was disconnected by the server %s (%v)", stream, when, sub.Err())
+}
+
 // relayCheck sends a marker through pub and requires it at sub; both must still be connected.
 func relayCheck(s *inproc.Server, sig, stream string, pub *lalclient.Publisher, sub *lalclient.Consumer, tag string) *pbt.Violation {
 	m := marker(tag, 0)
@@ -190,7 +206,7 @@ func relayCheck(s *inproc.Server, sig, stream string, pub *lalclient.Publisher, 
 		return nil
 	}
 	if sub.Ended() {
-		return pbt.V(sig+"/subscriber-disconnected", "the healthy subscriber of stream %q was disconnected (decoder error: %v)", stream, sub.Err())
+		return subscriberEnded(sig, stream, sub, "after the hostile session had ended")
 	}
 	if listed, known := subListed(s, streamNameOf(stream), sub); known && !listed {
 		return pbt.V(sig+"/subscriber-detached", "the healthy subscriber of stream %q is still connected but no longer attached to the stream: a marker published after the hostile session ended does not reach it", stream)
@@ -202,7 +218,7 @@ func relayCheck(s *inproc.Server, sig, stream string, pub *lalclient.Publisher, 
 		return v
 	}
 	if sub.Ended() {
-		return pbt.V(sig+"/subscriber-disconnected", "the healthy subscriber of stream %q was disconnected (decoder error: %v)", stream, sub.Err())
+		return subscriberEnded(sig, stream, sub, "after the hostile session had ended")
 	}
 	return pbt.V(sig+"/no-relay", "a marker published on stream %q after the hostile session ended was consumed by lal but did not reach the healthy subscriber within %v", stream, lalclient.DeliverTimeout)
 }
@@ -280,7 +296,10 @@ func run(c Case) *pbt.Violation {
 	// marker still flows; a healthy publisher can publish the stream the hostile peer had used
 	if bySub != nil {
 		if bySub.Ended() {
-			return pbt.V("bystander/subscriber-disconnected", "the healthy subscriber of stream %q was disconnected while the hostile session ran (decoder error: %v)", stream, bySub.Err())
+			if v := subscriberEnded("bystander", stream, bySub, "while the hostile session ran"); v != nil {
+				return v
+			}
+			return probe(s)
 		}
 		pub := byPub
 		if pub == nil {
